@@ -1,6 +1,7 @@
 (* C05 — lifecycle calls return and episodes are isolated.  Statements only; proofs in Lifecycle.v *)
 From Coq Require Import List Arith Bool.
 From Rex Require Import Lifecycle.
+From Rex Require Handshake.
 Import ListNotations.
 
 (* stop() of the (repaired) protocol: from every state satisfying the invariant — any number of queued tasks, any
@@ -33,3 +34,15 @@ Proof. exact (stale_dropped eps arrivals m). Qed.
 Theorem C05_none_lost (M : Type) eps (arrivals : list (nat * M)) m : In m arrivals -> fst m = eps -> In m (received eps arrivals).
 Proof. exact (none_lost eps arrivals m). Qed.
 Print Assumptions C05_stale_dropped.
+
+(* the observation / action handshake of reset() / step() / run(): in every interleaving of the supervisor thread and the user thread, for any
+   number of steps, the user's `action[-1].set_result` never meets an empty deque (IndexError) nor an already answered future *)
+Theorem C05_handshake_never_raises s : Handshake.steps true Handshake.init s ->
+  Handshake.Inv s /\ Handshake.up s <> Handshake.UIndexError /\ Handshake.up s <> Handshake.UInvalidState.
+Proof. exact (Handshake.handshake_never_raises s). Qed.
+Print Assumptions C05_handshake_never_raises.
+Example C05_handshake_nonvacuous : exists s, Handshake.steps true Handshake.init s /\ Handshake.app s = 2 /\ Handshake.ans s = 2 /\ Handshake.popd s = 2 /\ Handshake.got s = 2.
+Proof. exact Handshake.two_steps_run. Qed.
+(* publishing the observation before queuing the action future (the reordered variant) can raise IndexError: machine-checked witness *)
+Theorem C05_publish_first_witness : exists s, Handshake.steps false Handshake.init s /\ Handshake.up s = Handshake.UIndexError.
+Proof. exact Handshake.publish_first_refuted. Qed.
